@@ -1,6 +1,7 @@
 package main
 
 import (
+	"encoding/hex"
 	"bytes"
 	"encoding/json"
 	"fmt"
@@ -116,6 +117,23 @@ func runCodec(tier string, seed int64, summaryPath, outPath string) {
 	secs := []int64{0, 1, 1<<32 - 1, 1 << 32, 1<<34 - 1, 1 << 34, -1, -(1 << 31), math.MinInt64 / 1000000000, math.MaxInt64/1000000000 - 1, time.Now().Unix()}
 	nsecs := []int64{0, 1, 999999999}
 	fill := func(n int, utf bool) []byte {
+		if n >= 2048 { // large fields: a pattern the Coq side regenerates (segment G), so that no 64 kB literal has to be parsed
+			g := genSpec{n: n, seed: uint64(rng.Intn(256)), mode: 0}
+			if utf {
+				g.mode = 1
+			}
+			g.b = make([]byte, n)
+			for i := range g.b {
+				u := uint64(i)
+				if g.mode == 0 {
+					g.b[i] = byte((g.seed + u*131 + (u/256)*7) % 256)
+				} else {
+					g.b[i] = byte(97 + (g.seed+u*7+u/256)%26)
+				}
+			}
+			curGens = append(curGens, g)
+			return g.b
+		}
 		b := make([]byte, n)
 		for i := range b {
 			if utf {
@@ -126,7 +144,7 @@ func runCodec(tier string, seed int64, summaryPath, outPath string) {
 		}
 		return b
 	}
-	var protoCases, u64Cases, timeCases []string
+	var protoCases, u64Cases, timeCases, mpCases []string
 	w0, _ := wallet.New()
 	w1, _ := wallet.New()
 	ws, _ := wallet.New()
@@ -191,6 +209,7 @@ func runCodec(tier string, seed int64, summaryPath, outPath string) {
 	var prevVtx accountant.Vertex
 	for ci, c := range append([]cfg{{}}, cfgs...) {
 		var v accountant.Vertex
+		curGens = nil
 		if ci == 0 {
 			v = realV
 		} else {
@@ -276,6 +295,23 @@ func runCodec(tier string, seed int64, summaryPath, outPath string) {
 		} else {
 			sum.Kinds["msgpack.vertex"]++
 			sum.Nontrivial++
+			if tenc, terr := v.Transaction.Encode(); terr == nil {
+				// the quick tier compares a subset byte by byte (Coq reads literals at ~10 kB/s): every boundary sweep case, 20 random ones,
+				// and of the 64 kB fields the str16/str32 and bin16/bin32 boundaries of subject and data; the thorough tier compares all
+				sweep := ci <= len(cfgs)-nRandom
+				take := tier == "thorough" || (len(curGens) == 0 && (sweep || ci%3 == 0)) || (len(curGens) > 0 && sweep && c.isig < 2048 && c.rsig < 2048)
+				if !take {
+					sum.Kinds["msgpack.byte_exact_left_to_thorough"]++
+				} else if c := mvtxCoq(&v, enc, tenc); len(c) < 40000 {
+					mpCases = append(mpCases, c)
+					sum.Kinds["msgpack.byte_exact_cases"]++
+					if len(curGens) > 0 {
+						sum.Kinds["msgpack.byte_exact_cases_with_64k_field"]++
+					}
+				} else {
+					sum.Kinds["msgpack.byte_exact_skipped_unsegmentable"]++
+				}
+			}
 			if f := sameSigned(&v, &got); f != "" {
 				viol("msgpack-vertex-field-changed:"+f, map[string]any{"field": f, "case": ci})
 			}
@@ -377,7 +413,7 @@ func runCodec(tier string, seed int64, summaryPath, outPath string) {
 	sum.Samples = []string{"subject of 65536 bytes", "weight 2^64-1", "created_at = time.Unix(2^34, 999999999)", "non-UTF-8 subject (protobuf string field)"}
 	sum.Exhaustive = "each boundary value of each dimension around a base point + seeded random combinations; msgpack primitives on every boundary integer and timestamp"
 	var b bytes.Buffer
-	b.WriteString("From Coq Require Import List Arith NArith ZArith Bool.\nFrom Verif Require Import WalletFile Msg Codec.\nImport ListNotations.\nLocal Open Scope Z_scope.\n")
+	b.WriteString("From Coq Require Import List Arith NArith ZArith Bool.\nFrom Verif Require Import WalletFile Msg Codec Msgpack CheckCodec.\nImport ListNotations.\nLocal Open Scope Z_scope.\n")
 	b.WriteString(`Definition aeq (a b : avtx N) : bool :=
   N.eqb (a_signer a) (a_signer b) && Z.eqb (a_created a) (a_created b) && N.eqb (a_sig a) (a_sig b) && N.eqb (a_hash a) (a_hash b) &&
   N.eqb (a_left a) (a_left b) && N.eqb (a_right a) (a_right b) && Z.eqb (a_weight a) (a_weight b) && Z.eqb (at_created a) (at_created b) &&
@@ -390,7 +426,8 @@ func runCodec(tier string, seed int64, summaryPath, outPath string) {
 	b.WriteString("Definition bad_proto := map fst (filter (fun p => match snd p with (v, w, g) => negb (aeq (to_proto v) w && aeq (of_proto w) g) end) (combine (seq 0 (length proto_cases)) proto_cases)).\n")
 	b.WriteString("Definition bad_u64 := map fst (filter (fun p => match snd p with (x, e) => negb (bytes_eqb (enc_u64 x) e && match dec_u64 e with Some (y, []) => Z.eqb x y | _ => false end) end) (combine (seq 1000 (length u64_cases)) u64_cases)).\n")
 	b.WriteString("Definition bad_time := map fst (filter (fun p => match snd p with (s, n, e) => negb (bytes_eqb (enc_time s n) e && match dec_time e with Some (s', n') => Z.eqb s s' && Z.eqb n n' | None => false end) end) (combine (seq 2000 (length time_cases)) time_cases)).\n")
-	b.WriteString("Definition bad := Eval vm_compute in (bad_proto ++ bad_u64 ++ bad_time).\nPrint bad.\n")
+	b.WriteString("Import Coq.Strings.String.\nDefinition mp_cases : list (mvtx * list seg * list seg) := [\n" + strings.Join(mpCases, ";\n") + "].\n")
+	b.WriteString("Definition bad := Eval vm_compute in (app (app (app bad_proto bad_u64) bad_time) (bad_msgpack 3000 mp_cases)).\nPrint bad.\n")
 	os.WriteFile(outPath, b.Bytes(), 0644)
 	js, _ := json.MarshalIndent(sum, "", " ")
 	os.WriteFile(summaryPath, js, 0644)
@@ -413,4 +450,62 @@ func safeVtxDecode(b []byte) (v accountant.Vertex, err error) {
 		}
 	}()
 	return accountant.VerifDecodeVertex(b)
+}
+
+type genSpec struct {
+	n    int
+	seed uint64
+	mode int
+	b    []byte
+}
+
+var curGens []genSpec
+
+// coqSegs: a byte string as segments - literal hex and generated runs (the large pattern fields of this case)
+func coqSegs(b []byte) string {
+	var parts []string
+	rest := b
+	for len(rest) > 0 {
+		best, which := -1, -1
+		for gi, g := range curGens {
+			if idx := bytes.Index(rest, g.b); idx >= 0 && (best < 0 || idx < best) {
+				best, which = idx, gi
+			}
+		}
+		if best < 0 {
+			parts = append(parts, "L \""+hex.EncodeToString(rest)+"\"")
+			break
+		}
+		if best > 0 {
+			parts = append(parts, "L \""+hex.EncodeToString(rest[:best])+"\"")
+		}
+		g := curGens[which]
+		parts = append(parts, fmt.Sprintf("G %d %d %d", g.n, g.seed, g.mode))
+		rest = rest[best+len(g.b):]
+	}
+	return "[" + strings.Join(parts, "; ") + "]"
+}
+
+func coqOSegs(b []byte) string {
+	if b == nil {
+		return "None"
+	}
+	return "(SomeS " + coqSegs(b) + ")"
+}
+
+func coqZ(x int64) string {
+	if x < 0 {
+		return fmt.Sprintf("(%d)%%Z", x)
+	}
+	return fmt.Sprintf("%d%%Z", x)
+}
+
+// mvtxCoq: a vertex as model fields next to the bytes the real encoders produced
+func mvtxCoq(v *accountant.Vertex, venc, tenc []byte) string {
+	t := &v.Transaction
+	return fmt.Sprintf("(MC (HV %s %s %s %s %s %s %s %s %s %s %s %s %s %d%%Z %d%%Z %s %s %s %d%%Z) %s %s)",
+		coqSegs([]byte(v.SignerPublicAddress)), coqZ(v.CreatedAt.Unix()), coqZ(int64(v.CreatedAt.Nanosecond())), coqOSegs(v.Signature),
+		coqZ(t.CreatedAt.Unix()), coqZ(int64(t.CreatedAt.Nanosecond())), coqSegs([]byte(t.IssuerAddress)), coqSegs([]byte(t.ReceiverAddress)), coqSegs([]byte(t.Subject)),
+		coqOSegs(t.Data), coqOSegs(t.IssuerSignature), coqOSegs(t.ReceiverSignature), coqSegs(t.Hash[:]), t.Spice.Currency, t.Spice.SupplementaryCurrency,
+		coqSegs(v.Hash[:]), coqSegs(v.LeftParentHash[:]), coqSegs(v.RightParentHash[:]), v.Weight, coqSegs(venc), coqSegs(tenc))
 }
